@@ -9,7 +9,9 @@
 (* One quota object per (quota, group key):                                     *)
 (*   cstart  stored window start, truncated to whole seconds (even ticks), or   *)
 (*           None while nothing was stored;  ccount  stored counter;            *)
-(*   memo    request id -> "n" (absent) | "t" | "f"   (allowedByReqID).         *)
+(*   memo    request id -> "n" (absent) | "t" | "f"   (allowedByReqID);         *)
+(*   pmemo   the memo as it was at the latest window restart                    *)
+(*           (prevAllowedByReqID: verdicts not collected before the restart).   *)
 (* A Limiter runs   Inc(leaf) ; Allowed(leaf)   where                           *)
 (*   Inc(q)     = IncLocked(q) ; if it returned `increased` and q has a parent  *)
 (*                then Inc(parent)                                              *)
@@ -25,30 +27,25 @@
 EXTENDS Integers, Sequences, FiniteSets
 
 CONSTANTS Quota, Parent, Max, W, Grouped, Group, Gran, Costs, Steps, MaxNow,
-          Ids,        \* transaction ids (reused once the previous holder is finished)
+          Ids,        \* transaction ids (mode "seq": reused once the previous holder is finished;
+                      \*   mode "conc": each id names one transaction - the gateway's ids are unique)
           N,          \* number of request slots (mode "conc")
           Mode,       \* "seq" | "conc"
           Variant     \* "none" | "strict_gt" | "no_delete" | "no_parent" | "no_error" | "no_group" | "racy_inc"
                       \* | "no_trunc" (benign: window start stored with full precision)
 
-None == -1
-
-RECURSIVE Chain(_)
-Chain(q) == IF Parent[q] = "-" THEN <<q>> ELSE <<q>> \o Chain(Parent[q])
-
-Key(q, g) == IF Grouped[q] /\ Variant # "no_group" THEN g ELSE "default"
-Trunc(t) == IF Variant = "no_trunc" THEN t ELSE (t \div Gran) * Gran
-MaxOf(a, b) == IF a >= b THEN a ELSE b
+INSTANCE FixedWindowOps
 
 VARIABLES
     now,
-    cstart, ccount, memo,      \* the quota objects
+    cstart, ccount, memo, pmemo,   \* the quota objects
     slot,                      \* mode "conc": [1..N -> request record]
+    used,                      \* mode "conc": ids already given to a transaction
     epoch, hAdm,               \* history: window generation per key, amount admitted in it
     hLo, hHi, hAdmP,           \* history: FixedWindowP's lo / hi / admitted (mode "seq")
     last
 
-ivars == <<now, cstart, ccount, memo, slot, epoch, hAdm, hLo, hHi, hAdmP, last>>
+ivars == <<now, cstart, ccount, memo, pmemo, slot, used, epoch, hAdm, hLo, hHi, hAdmP, last>>
 
 QK == [Quota -> [Group -> Int]]
 Idle == [pc |-> "idle"]
@@ -58,7 +55,9 @@ Init ==
     /\ cstart = [q \in Quota |-> [k \in Group |-> None]]
     /\ ccount = [q \in Quota |-> [k \in Group |-> 0]]
     /\ memo = [q \in Quota |-> [k \in Group |-> [i \in Ids |-> "n"]]]
+    /\ pmemo = [q \in Quota |-> [k \in Group |-> [i \in Ids |-> "n"]]]
     /\ slot = [r \in 1..N |-> Idle]
+    /\ used = {}
     /\ epoch = [q \in Quota |-> [k \in Group |-> 0]]
     /\ hAdm = [q \in Quota |-> [k \in Group |-> 0]]
     /\ hLo = [q \in Quota |-> [k \in Group |-> None]]
@@ -66,39 +65,7 @@ Init ==
     /\ hAdmP = [q \in Quota |-> [k \in Group |-> 0]]
     /\ last = [ev |-> "init"]
 
--------------------------------------------------------------------------------
-\* memory_state.AtomicIncWindow + quota.Inc on store S = [cs, cc, mm], for (q, k), id, cost c, at instant t.
-\* Result: [S, res \in {"already","increased","blocked"}, restarted (memo cleared), exp (no live stored window)]
-IncLocked(S, q, k, id, c, t) ==
-    IF S.mm[q][k][id] # "n" THEN [S |-> S, res |-> "already", restarted |-> FALSE, exp |-> FALSE]
-    ELSE
-    LET ws        == IF S.cs[q][k] = None THEN t ELSE S.cs[q][k]
-        restarted == IF Variant = "strict_gt" THEN t - ws > W[q] ELSE t - ws >= W[q]
-        base      == IF restarted THEN 0 ELSE S.cc[q][k]
-        newc      == base + c
-        over      == newc > Max[q] /\ Variant # "no_error"
-        clean     == [i \in Ids |-> "n"]
-        m0        == IF restarted THEN clean ELSE [S.mm[q][k] EXCEPT ![id] = "f"]
-    IN  IF over
-        THEN [S |-> [S EXCEPT !.mm[q][k] = m0], res |-> "blocked", restarted |-> restarted,
-              exp |-> restarted \/ S.cs[q][k] = None]
-        ELSE [S |-> [cs |-> [S.cs EXCEPT ![q][k] = Trunc(IF restarted THEN t ELSE ws)],
-                     cc |-> [S.cc EXCEPT ![q][k] = newc],
-                     mm |-> [S.mm EXCEPT ![q][k] = [m0 EXCEPT ![id] = "t"]]],
-              res |-> "increased", restarted |-> restarted, exp |-> restarted \/ S.cs[q][k] = None]
-
-\* quota.Allowed: read-and-delete of the memo
-AllowedLocked(S, q, k, id) ==
-    LET v == S.mm[q][k][id] IN
-    [S |-> IF v = "n" \/ Variant = "no_delete" THEN S ELSE [S EXCEPT !.mm[q][k][id] = "n"],
-     ok |-> v = "t"]
-
-\* quota.ResetIn: clears the memo when the stored window has run out (does not restart it)
-ResetInLocked(S, q, k, t) ==
-    IF S.cs[q][k] # None /\ S.cs[q][k] + W[q] - t <= 0
-    THEN [S EXCEPT !.mm[q][k] = [i \in Ids |-> "n"]] ELSE S
-
-Store == [cs |-> cstart, cc |-> ccount, mm |-> memo]
+Store == [cs |-> cstart, cc |-> ccount, mm |-> memo, pm |-> pmemo]
 
 -------------------------------------------------------------------------------
 \* Mode "seq": the whole Limiter as one step.
@@ -130,7 +97,7 @@ SeqEffect(a, b, leaf, g, c) ==
         out == IF b.ok THEN "admit" ELSE "refuse"
         At(q, k) == {i \in 1..n : ch[i] = q /\ Key(q, g) = k}
     IN
-    /\ cstart' = b.S.cs /\ ccount' = b.S.cc /\ memo' = b.S.mm
+    /\ cstart' = b.S.cs /\ ccount' = b.S.cc /\ memo' = b.S.mm /\ pmemo' = b.S.pm
     /\ last' = [ev |-> "arrive", q |-> leaf, g |-> g, cost |-> c, out |-> out, mode |-> "seq"]
     \* history variables following FixedWindowP's bookkeeping with the decisions the implementation took
     /\ hHi' = [q \in Quota |-> [k \in Group |->
@@ -144,7 +111,7 @@ SeqEffect(a, b, leaf, g, c) ==
           IF \E i \in At(q, k) : i \in a.charged
           THEN (IF \E i \in At(q, k) : i \in a.opened THEN 0 ELSE hAdmP[q][k]) + (IF b.ok THEN c ELSE 0)
           ELSE hAdmP[q][k]]]
-    /\ UNCHANGED <<now, slot, epoch, hAdm>>
+    /\ UNCHANGED <<used, now, slot, epoch, hAdm>>
 
 ArriveSeq(leaf, g, c, id) ==
     /\ Mode = "seq"
@@ -155,14 +122,13 @@ ArriveSeq(leaf, g, c, id) ==
 -------------------------------------------------------------------------------
 \* Mode "conc": one critical section per step.
 \* slot record: [pc \in {"inc","allow"}, leaf, g, c, id, lvl, ch (levels charged with their epoch)]
-InFlightIds == {slot[r].id : r \in {x \in 1..N : slot[x].pc # "idle"}}
-
 Begin(r, leaf, g, c, id) ==
-    /\ Mode = "conc" /\ slot[r].pc = "idle" /\ id \notin InFlightIds
+    /\ Mode = "conc" /\ slot[r].pc = "idle" /\ id \notin used
+    /\ used' = used \cup {id}
     /\ slot' = [slot EXCEPT ![r] = [pc |-> "inc", leaf |-> leaf, g |-> g, c |-> c, id |-> id, lvl |-> 1,
                                     ch |-> [i \in 1..Len(Chain(leaf)) |-> None]]]
     /\ last' = [ev |-> "begin", r |-> r]
-    /\ UNCHANGED <<now, cstart, ccount, memo, epoch, hAdm, hLo, hHi, hAdmP>>
+    /\ UNCHANGED <<now, cstart, ccount, memo, pmemo, epoch, hAdm, hLo, hHi, hAdmP>>
 
 \* Variant "racy_inc" (non-vacuity of the interleaving model): the counter is read in one step and
 \* written in the next, as if quota.mutex / memoryState.mutex were not held across AtomicIncWindow
@@ -171,7 +137,7 @@ StepIncRead(r) ==
     /\ Mode = "conc" /\ Variant = "racy_inc" /\ s.pc = "inc" /\ "seen" \notin DOMAIN s
     /\ slot' = [slot EXCEPT ![r] = [x \in DOMAIN s \cup {"seen"} |-> IF x = "seen" THEN ccount[q][k] ELSE s[x]]]
     /\ last' = [ev |-> "incread", r |-> r]
-    /\ UNCHANGED <<now, cstart, ccount, memo, epoch, hAdm, hLo, hHi, hAdmP>>
+    /\ UNCHANGED <<used, now, cstart, ccount, memo, pmemo, epoch, hAdm, hLo, hHi, hAdmP>>
 
 StepInc(r) ==
     LET s0 == slot[r]  ch == Chain(s0.leaf)  i == s0.lvl  q == ch[i]  k == Key(q, s0.g)
@@ -182,7 +148,7 @@ StepInc(r) ==
         ep == IF opened THEN epoch[q][k] + 1 ELSE epoch[q][k]
     IN
     /\ Mode = "conc" /\ s.pc = "inc" /\ (Variant = "racy_inc" => "seen" \in DOMAIN s0)
-    /\ cstart' = x.S.cs /\ ccount' = x.S.cc /\ memo' = x.S.mm
+    /\ cstart' = x.S.cs /\ ccount' = x.S.cc /\ memo' = x.S.mm /\ pmemo' = x.S.pm
     /\ epoch' = [epoch EXCEPT ![q][k] = ep]
     /\ hAdm' = IF opened THEN [hAdm EXCEPT ![q][k] = 0] ELSE hAdm
     /\ slot' = [slot EXCEPT ![r] =
@@ -190,7 +156,7 @@ StepInc(r) ==
           THEN [s EXCEPT !.lvl = i + 1, !.ch[i] = ep]
           ELSE [s EXCEPT !.pc = "allow", !.lvl = 1, !.ch[i] = IF x.res = "increased" THEN ep ELSE s.ch[i]]]
     /\ last' = [ev |-> "inc", r |-> r]
-    /\ UNCHANGED <<now, hLo, hHi, hAdmP>>
+    /\ UNCHANGED <<used, now, hLo, hHi, hAdmP>>
 
 StepAllow(r) ==
     LET s == slot[r]  ch == Chain(s.leaf)  i == s.lvl  q == ch[i]  k == Key(q, s.g)
@@ -199,7 +165,7 @@ StepAllow(r) ==
         admit == x.ok /\ ~more
     IN
     /\ Mode = "conc" /\ s.pc = "allow"
-    /\ memo' = x.S.mm
+    /\ memo' = x.S.mm /\ pmemo' = x.S.pm
     /\ slot' = [slot EXCEPT ![r] = IF more THEN [s EXCEPT !.lvl = i + 1] ELSE Idle]
     \* an admitted request counts, at every quota of its chain, in the window that charged it;
     \* if no window charged it (stale memo) it counts in the current one
@@ -209,20 +175,20 @@ StepAllow(r) ==
               THEN hAdm[qq][kk] + s.c ELSE hAdm[qq][kk]]]
     /\ last' = IF more THEN [ev |-> "allow", r |-> r]
                ELSE [ev |-> "end", r |-> r, out |-> IF admit THEN "admit" ELSE "refuse"]
-    /\ UNCHANGED <<now, cstart, ccount, epoch, hLo, hHi, hAdmP>>
+    /\ UNCHANGED <<used, now, cstart, ccount, epoch, hLo, hHi, hAdmP>>
 
 ResetIn(q, k) ==
     LET S == ResetInLocked(Store, q, k, now) IN
     /\ Mode = "conc"
-    /\ memo' = S.mm /\ memo' # memo
+    /\ memo' = S.mm /\ pmemo' = S.pm /\ <<memo', pmemo'>> # <<memo, pmemo>>
     /\ last' = [ev |-> "resetin"]
-    /\ UNCHANGED <<now, cstart, ccount, slot, epoch, hAdm, hLo, hHi, hAdmP>>
+    /\ UNCHANGED <<used, now, cstart, ccount, slot, epoch, hAdm, hLo, hHi, hAdmP>>
 
 Advance(d) ==
     /\ d > 0 /\ now + d <= MaxNow
     /\ now' = now + d
     /\ last' = [ev |-> "adv", d |-> d]
-    /\ UNCHANGED <<cstart, ccount, memo, slot, epoch, hAdm, hLo, hHi, hAdmP>>
+    /\ UNCHANGED <<used, cstart, ccount, memo, pmemo, slot, epoch, hAdm, hLo, hHi, hAdmP>>
 
 Next ==
     \/ \E d \in Steps : Advance(d)
@@ -246,5 +212,5 @@ NoCarryP == P!NoCarry
 BoundI == \A q \in Quota, k \in Group : hAdm[q][k] <= ccount[q][k] /\ ccount[q][k] <= Max[q]
 
 \* the memo never outlives its request when requests are handled one at a time
-MemoClean == Mode = "seq" => \A q \in Quota, k \in Group, i \in Ids : memo[q][k][i] = "n"
+MemoClean == Mode = "seq" => \A q \in Quota, k \in Group, i \in Ids : memo[q][k][i] = "n" /\ pmemo[q][k][i] = "n"
 ================================================================================
